@@ -111,6 +111,7 @@ Proof.
   - apply hard_not_panic, actor_field_total.
   - destruct j; try discriminate.
     destruct (forallb _ ms); discriminate.
+  - destruct j; try discriminate. destruct (has_huge _); discriminate.
 Qed.
 
 Lemma members_total f g sc ms soft : decode_members f g true sc ms soft <> Panic.
@@ -131,13 +132,19 @@ Proof.
   - now elim H.
 Qed.
 
+Lemma device_authz_total f g j : decode_device_authz f g true j <> Panic.
+Proof. unfold decode_device_authz. destruct (is_null j); [discriminate | apply struct_total]. Qed.
+
+Lemma device_authz_indirect_panics f g : decode_device_authz f g false JNull = Panic.
+Proof. reflexivity. Qed.
+
 Lemma decode_total t d j : decode t d j <> KPanic.
 Proof.
   assert (C : forall A (r : result A), r <> Panic -> cls_of r <> KPanic).
   { intros A r H; destruct r; cbn; try discriminate. now elim H. }
   destruct d; unfold decode; apply C;
     first [apply audience_total | apply time_total | apply locale_total | apply locales_total
-          | apply bool_total | apply sda_total | apply actor_field_total | apply struct_total].
+          | apply bool_total | apply sda_total | apply actor_field_total | apply struct_total | apply device_authz_total].
 Qed.
 
 (* ---- layer (b) ---- *)
@@ -164,6 +171,16 @@ Qed.
 
 Lemma verify_unguarded_panics f g :
   verify f g false true VRpIDToken {| t_segments := 3; t_b64ok := true; t_payload := PJson JNull |} = VPanic.
+Proof. reflexivity. Qed.
+
+Lemma hint_caller_total c h : hint_caller true c h <> HPanic /\ hint_caller true c h <> HDouble.
+Proof.
+  unfold hint_caller, verify_hint.
+  destruct (h_issuer_ok h), (h_sig_ok h), (h_exp h), (h_iat h); cbn; split; discriminate.
+Qed.
+
+Lemma hint_nil_claims_panics :
+  hint_caller false HEndSession {| h_issuer_ok := true; h_sig_ok := true; h_exp := TFuture; h_iat := TAbsent |} = HPanic.
 Proof. reflexivity. Qed.
 
 (* ---- layer (c) ---- *)
@@ -248,10 +265,18 @@ Lemma handler_unfixed_panics :
 Proof. reflexivity. Qed.
 
 (* ---- layer (d) ---- *)
+Lemma read_body_false a : read_body false a = Ok tt.
+Proof. unfold read_body. destruct (a_clen a); reflexivity. Qed.
+
+Lemma presize_panics f g :
+  http_request_from f g true true HDiscover {| a_ok := false; a_body := BInvalid; a_clen := CLHuge |} = Panic.
+Proof. reflexivity. Qed.
+
 Lemma http_request_guarded f g h a :
   http_request f g true h a <> Panic /\ http_request f g true h a <> Ok None.
 Proof.
-  unfold http_request. destruct (negb (a_ok a)); [split; discriminate|].
+  unfold http_request, http_request_from. rewrite read_body_false.
+  destruct (negb (a_ok a)); [split; discriminate|].
   destruct (a_body a) as [|j|j]; [split; discriminate| |split; discriminate].
   destruct (is_null j); [split; discriminate|].
   pose proof (struct_total f g (fst (hschema h)) (snd (hschema h)) j) as H.
@@ -275,7 +300,7 @@ Qed.
 Lemma call_ok_well_formed f g h a e :
   call f g true h a e = CRetOk -> negb (a_ok a) || well_formed (a_body a) = true.
 Proof.
-  unfold call, http_request. destruct h; try discriminate;
+  unfold call, http_request, http_request_from. rewrite read_body_false. destruct h; try discriminate;
     (destruct (a_ok a); cbn; [|discriminate]; destruct (a_body a); cbn; [discriminate|reflexivity|discriminate]).
 Qed.
 
@@ -296,8 +321,8 @@ Proof.
 Qed.
 
 Lemma device_flow_ticker_panics f g :
-  device_flow f g false {| a_ok := true; a_body := BJson (JObj [("device_code", JStr "d")]) |}
-                        {| a_ok := true; a_body := BJson (JObj []) |} = CPanic.
+  device_flow f g false {| a_ok := true; a_body := BJson (JObj [("device_code", JStr "d")]); a_clen := CLHonest |}
+                        {| a_ok := true; a_body := BJson (JObj []); a_clen := CLHonest |} = CPanic.
 Proof. reflexivity. Qed.
 
 Lemma decrypt_total t : decrypt_aes true t <> Panic.
@@ -312,18 +337,19 @@ Lemma decrypt_encoded_check_panics :
 Proof. reflexivity. Qed.
 
 Lemma call_unguarded_panics f g :
-  call f g false HDiscover {| a_ok := true; a_body := BJson JNull |} "https://op" = CPanic.
+  call f g false HDiscover {| a_ok := true; a_body := BJson JNull; a_clen := CLHonest |} "https://op" = CPanic.
 Proof. reflexivity. Qed.
 
 (* ---- central theorem ---- *)
 Lemma spec_model i : spec i (model i) = true.
 Proof.
-  destruct i as [d j t|k tok t|s|x|cx|e c q|h a e t|dev tok t|o|n amount dash]; cbn.
+  destruct i as [d m j t|k tok t|s|x|hc he hh|cx|e c q|h a e t|dev tok t|o|n amount dash]; cbn.
   - pose proof (decode_total t d j) as H. destruct (decode t d j); try reflexivity. now elim H.
   - pose proof (verify_total (time_of t) (lang_of t) k tok) as H.
     destruct (verify _ _ true true k tok); try reflexivity. now elim H.
   - apply handler_single.
   - apply xhandler_single.
+  - pose proof (hint_caller_total hc hh) as H. destruct (hint_caller true hc hh); try reflexivity; now elim H.
   - apply chandler_single.
   - reflexivity.
   - pose proof (call_total (time_of t) (lang_of t) h a e) as H.
@@ -383,7 +409,7 @@ Lemma client_success_only_on_documents :
     call rfc3339_ok lang_class true h a e = CRetOk -> a_ok a = true /\ exists j, a_body a = BJson j.
 Proof.
   intros f g h a e H. pose proof (call_ok_well_formed f g h a e H) as W.
-  unfold call, http_request in H. destruct (a_ok a) eqn:E.
+  unfold call, http_request, http_request_from in H. rewrite read_body_false in H. destruct (a_ok a) eqn:E.
   - split; [reflexivity|]. cbn in W. destruct (a_body a); try discriminate. now eexists.
   - destruct h; discriminate.
 Qed.
@@ -419,3 +445,24 @@ Proof. intros f g. do 2 eexists. apply device_flow_ticker_panics. Qed.
 
 Lemma opaque_encoded_check_refuted : exists t, decrypt_aes false t = Panic.
 Proof. eexists. exact decrypt_encoded_check_panics. Qed.
+
+Lemma decoders_device_authz :
+  forall (rfc3339_ok : string -> bool) (lang_class : string -> nat) (j : json),
+    decode_device_authz rfc3339_ok lang_class true j <> Panic.
+Proof. exact device_authz_total. Qed.
+
+Lemma device_authz_indirect_refuted :
+  forall (rfc3339_ok : string -> bool) (lang_class : string -> nat),
+    exists j, decode_device_authz rfc3339_ok lang_class false j = Panic.
+Proof. intros f g. eexists. apply device_authz_indirect_panics. Qed.
+
+Lemma hints_total : forall c h, hint_caller true c h <> HPanic.
+Proof. intros c h. apply hint_caller_total. Qed.
+
+Lemma hint_nil_claims_refuted : exists c h, hint_caller false c h = HPanic.
+Proof. do 2 eexists. exact hint_nil_claims_panics. Qed.
+
+Lemma presize_refuted :
+  forall (rfc3339_ok : string -> bool) (lang_class : string -> nat),
+    exists h a, http_request_from rfc3339_ok lang_class true true h a = Panic.
+Proof. intros f g. do 2 eexists. apply presize_panics. Qed.
